@@ -295,8 +295,13 @@ func (s *AbsfsNFS) SetAttr(node *NFSNode, attrs *NFSAttrs) error {
 		}
 	}
 
-	// Update attrs with lock protection
+	// Update attrs with lock protection. SETATTR changes permission bits, ownership
+	// and times only: the object's type, size and fileid stay what they were (the
+	// caller's record carries no type bits and no fileid).
 	node.mu.Lock()
+	attrs.Mode = node.attrs.Mode&^os.ModePerm | attrs.Mode&os.ModePerm
+	attrs.Size = node.attrs.Size
+	attrs.FileId = node.attrs.FileId
 	node.attrs = attrs
 	node.attrs.Refresh() // Initialize cache validity
 	node.mu.Unlock()
@@ -878,36 +883,17 @@ func (s *AbsfsNFS) ReadDirPlus(dir *NFSNode) ([]*NFSNode, error) {
 		return nil, err
 	}
 
-	// Pre-cache attributes for all entries
+	// Refresh the attributes of all entries the way GETATTR does (Lstat, so that a
+	// symbolic link is reported as a link, and the path-derived fileid), so that
+	// READDIRPLUS and GETATTR agree on every object.
 	for _, node := range nodes {
-		if attrs, found := s.attrCache.Get(node.path, s); !found || attrs == nil || !attrs.IsValid() {
-			info, err := s.fs.Stat(node.path)
-			if err != nil {
-				continue
-			}
-			// Read Uid/Gid with lock protection
-			node.mu.RLock()
-			uid := node.attrs.Uid
-			gid := node.attrs.Gid
-			node.mu.RUnlock()
-
-			modTime := info.ModTime()
-			attrs := &NFSAttrs{
-				Mode: info.Mode(),
-				Size: info.Size(),
-				Uid:  uid,
-				Gid:  gid,
-			}
-			attrs.SetMtime(modTime)
-			attrs.SetAtime(modTime)
-			attrs.Refresh() // Initialize cache validity
-			s.attrCache.Put(node.path, attrs)
-
-			// Assign attrs with write lock protection
-			node.mu.Lock()
-			node.attrs = attrs
-			node.mu.Unlock()
+		attrs, err := s.GetAttr(node)
+		if err != nil {
+			continue
 		}
+		node.mu.Lock()
+		node.attrs = attrs
+		node.mu.Unlock()
 	}
 
 	return nodes, nil
